@@ -290,12 +290,17 @@ E2E_CASES = [
     "hx_select_e2e::sel::alpha::a", "hx_select_e2e::sel::alpha::beta::a", "hx_select_e2e::sel::alpha::beta::b::5",
     "hx_select_e2e::sel::Grp::inner", "hx_select_e2e::sel::Grp::sub::top", "hx_select_e2e::sel::type::loop",
     "hx_select_e2e::opt::g1::g2::g3::inherit", "hx_select_e2e::opt::plain",
+    "hx_select_e2e::sel::pair::Pair<u8, u8>", "hx_select_e2e::sel::pair::Pair<u8, i8>", "hx_select_e2e::sel::tuple::(1, 2)",
+    "hx_select_e2e::sel::tuple::(2, 2)", "hx_select_e2e::sel::comma_str::a,b", "hx_select_e2e::sel::comma_str::a, b",
+    "hx_select_e2e::sel::comma_str::a", "hx_select_e2e::sel::x, y",
+    "hx_select_e2e::sel::pair::Pair<u8, u8>", "hx_select_e2e::sel::tuple::(1, 2)", "hx_select_e2e::sel::comma_str::a,b",
 ]
 E2E_INNER = ["hx_select_e2e::sel::alpha", "hx_select_e2e::sel::alpha::beta", "hx_select_e2e::sel::Grp", "hx_select_e2e::sel::with_args",
              "hx_select_e2e", "hx_select_e2e::sel", "hx_select_e2e::sel::both::i32", "hx_select_e2e::sel::grp", "hx_select_e2e::sel::orig",
              "hx_select_e2e::sel::r#type::r#loop", "hx_select_e2e::sel::no_args", "hx_select_e2e::sel::Grp::sub::x"]
 E2E_WORDS = ["top", "a", "b", "alpha", "beta", "Grp", "grp", "sub", "1", "10", "i32", "u8", "loop", "type", "renamed", "orig", "x",
-             "with_args", "args", "gen", "sel", "opt", "inherit", "zzz", "no_args"]
+             "with_args", "args", "gen", "sel", "opt", "inherit", "zzz", "no_args",
+             "u8, u8", "(1, 2)", "a,b", "a, b", "x, y", ", ", ",", "Pair<u8, i8>", "1, 2", "y"]
 E2E_DEGENERATE = ["", "", "^", "$", ".*", "^$", "hx_select_e2e::sel::top", "hx_select_e2e"]
 E2E_REGEX = ["::a$", "^hx_select_e2e::sel::[a-z]+$", "::[0-9]+$", "alpha|Grp", "top$", "(i32|u8)::", "::b::", "^sel", "sel::.*::a", "r#",
              "gen_(ty|const)", "::1", "::1$", "beta::[ab]$", "[A-Z]", ".", "^$", "e2e::sel::t"]
@@ -338,7 +343,7 @@ def gen_e2e(rng, k):
         ex = rng.random() < 0.5
         ops.append("-" + ("e:" if ex else "r:") + text(ex))
         origins.append("q")
-    return f"e{k} #F " + " ".join(ops) + " #O " + ("".join(origins) or "-")
+    return f"e{k} #F " + " ".join(E.enc(o) for o in ops) + " #O " + ("".join(origins) or "-")
 
 
 def e2e_cli(case):
@@ -347,7 +352,7 @@ def e2e_cli(case):
     origins = "" if origins == "-" else origins
     args, builder, exact = [], [], False
     for op, o in zip(ops, origins):
-        inc, ex, pat = op[0] == "+", op[1] == "e", op[3:]
+        inc, ex, pat = op[0] == "+", op[1] == "e", E.dec(op[3:])
         if o == "c":
             exact = exact or ex
             args += [pat] if inc else ["--skip", pat]
@@ -368,9 +373,9 @@ class E2EContext:
         if self.ready:
             return
         rc, out, err = E.run(hbin, ["--list", "--format", "terse", "--include-ignored"], {"NEXTEST": "1"})
-        self.all_cases = E.terse_cases(out)
+        self.all_cases = [E.enc(c) for c in E.terse_cases(out)]
         rc, out, err = E.run(hbin, ["--list", "--include-ignored"])
-        self.list_leaves = [p for p, leaf, _ in E.tree_paths(E.parse_tree(out)) if leaf]
+        self.list_leaves = [E.enc(p) for p, leaf, _ in E.tree_paths(E.parse_tree(out)) if leaf]
         self.u_tokens = E.build_u_tokens(self.list_leaves, self.all_cases)
         inner = set()
         for c in self.all_cases:
@@ -402,9 +407,9 @@ def e2e_impl_runner(ctx):
             if rc1 != 0 or rc2 != 0 or rc3 != 0 or not tline.startswith("#T"):
                 lines.append(f"crash rc={rc1},{rc2},{rc3} {(err1 + err2 + err3).strip().splitlines()[-1:] } {tline[:40]}")
                 continue
-            ran = sorted(set(E.ran_tags(err1)))
-            listed = sorted(set(E.terse_cases(out2)))
-            leaves = sorted(p for p, leaf, _ in E.tree_paths(E.parse_tree(out3)) if leaf)
+            ran = sorted(set(E.enc(t) for t in E.ran_tags(err1)))
+            listed = sorted(set(E.enc(c) for c in E.terse_cases(out2)))
+            leaves = sorted(E.enc(p) for p, leaf, _ in E.tree_paths(E.parse_tree(out3)) if leaf)
             rows = iter(t for t in tline[2:].split(" ") if t)
             trows = [next(rows) if o[1] == "r" else "x" for o in ops]
             q = lambda l: " ".join("?" + x for x in l)
